@@ -4,6 +4,7 @@ import (
 	"encoding/json"
 	"fmt"
 	"go/ast"
+	"go/constant"
 	"go/token"
 	"go/types"
 	"os"
@@ -274,20 +275,14 @@ func checkPanicInvariants(c *Ctx, r *Report) {
 	checkEngineTables(c, r, "C14.b")
 	// void signature is an error
 	if fi := need(c, r, "C14.b", "core/validators.getDiagForRetSig"); fi != nil {
-		viol := "no `case 0:` arm returning an error diagnostic"
+		viol := "no error diagnostic is produced for a signature without return values (len == 0)"
 		var ss []string
-		for _, sw := range w.switches(fi, func(tag ast.Expr) bool {
-			return strings.HasPrefix(exprString(tag), "len()") || strings.Contains(exprString(tag), "len")
-		}) {
-			for _, cc := range sw.Stmt.Body.List {
-				cl := cc.(*ast.CaseClause)
-				for _, l := range cl.List {
-					if tv := fi.Pkg.TypesInfo.Types[l]; tv.Value != nil && tv.Value.String() == "0" {
-						ss = append(ss, w.pos(cl.Pos()))
-						if containsNode(cl, w.callPred(fi, diagPkg+".NewErrorDiagnostic")) {
-							viol = ""
-						}
-					}
+		for _, cl := range callsIn(fi.SSA, false, nameIs(diagPkg+".NewErrorDiagnostic")) {
+			for _, f := range guardsOf(cl) {
+				cnd, pol := unwrapNot(f.Cond, f.Pol)
+				if zeroLenFact(cnd, pol) {
+					ss = append(ss, w.pos(cl.Pos()), w.pos(instrPos(f.From)))
+					viol = ""
 				}
 			}
 		}
@@ -395,12 +390,32 @@ func checkMaterializeGuard(c *Ctx, r *Report) {
 		return n == "(core/metadata.MetaCache).FinishMaterializing" || n == "(*core/arbitrators/caching.MetadataCache).FinishMaterializing"
 	}
 	fin := map[*ssa.BasicBlock]bool{}
-	for _, cl := range callsIn(fi.SSA, false, isFinish) {
+	var finCalls []ssa.CallInstruction
+	for _, cl := range callsInLocal(fi.SSA, false, isFinish) {
 		fin[cl.Block()] = true
+		finCalls = append(finCalls, cl)
 		ss = append(ss, w.pos(cl.Pos()))
 	}
-	for _, vt := range callsIn(fi.SSA, false, nameIs("(*core/visitors.TypeDeclVisitor).VisitTypeDecl")) {
+	// a new function that always releases the claim stands for the release
+	for _, hc := range w.newHelperCalls(fi.SSA) {
+		h := w.newCallee(hc)
+		if w.summary(sumKey{namedOf(h), "call", "FinishMaterializing", 0}, func() bool { _, v := w.mustPassCall(h, isFinish, "FinishMaterializing"); return v == "" }) {
+			fin[hc.Block()] = true
+			finCalls = append(finCalls, hc)
+			ss = append(ss, w.pos(hc.Pos()))
+		}
+	}
+	for _, vt := range callsInLocal(fi.SSA, false, nameIs("(*core/visitors.TypeDeclVisitor).VisitTypeDecl")) {
 		ss = append(ss, w.pos(vt.Pos()))
+		releasedInBlock := false
+		for _, fc := range finCalls {
+			if fc.Block() == vt.Block() && instrDominates(vt, fc) {
+				releasedInBlock = true // released right after the descent, whatever its verdict
+			}
+		}
+		if releasedInBlock {
+			continue
+		}
 		seen := map[*ssa.BasicBlock]bool{}
 		stack := []*ssa.BasicBlock{vt.Block()}
 		for len(stack) > 0 {
@@ -421,8 +436,8 @@ func checkMaterializeGuard(c *Ctx, r *Report) {
 			stack = append(stack, b.Succs...)
 		}
 	}
-	if len(fin) < 2 {
-		viol = "expected FinishMaterializing on both the success and the failure exit"
+	if len(fin) < 1 {
+		viol = "EnsureDeclMaterialized never calls FinishMaterializing"
 	}
 	o := r.add("C14.c", "mustcall", edm+":finish-on-every-exit", "Start/FinishMaterializing are paired on every path", []string{edm}, ss, viol)
 	o.NonTrivial = true
@@ -579,4 +594,56 @@ func checkIOErrors(c *Ctx, r *Report, tbl *crashTables) {
 		r.undecided("C14.a", "ioerr", "io:coverage", "", fmt.Sprintf("only %d os/io calls with an error result found (floor 8)", n))
 	}
 	r.count("io_calls_with_error_result", n)
+}
+
+// zeroLenFact: the branch fact says that some len(x) is 0 (== 0, < 1, <= 0 held; != 0, > 0, >= 1 failed).
+func zeroLenFact(cnd ssa.Value, pol bool) bool {
+	bo, ok := cnd.(*ssa.BinOp)
+	if !ok {
+		return false
+	}
+	isLen := func(v ssa.Value) bool {
+		c, ok := v.(*ssa.Call)
+		if !ok {
+			return false
+		}
+		b, ok := c.Call.Value.(*ssa.Builtin)
+		return ok && b.Name() == "len"
+	}
+	constIs := func(v ssa.Value, n int64) bool {
+		k, ok := v.(*ssa.Const)
+		return ok && k.Value != nil && k.Value.Kind() == constant.Int && k.Int64() == n
+	}
+	x, y, op := bo.X, bo.Y, bo.Op
+	if isLen(y) { // constant on the left: mirror
+		x, y = y, x
+		switch op {
+		case token.LSS:
+			op = token.GTR
+		case token.GTR:
+			op = token.LSS
+		case token.LEQ:
+			op = token.GEQ
+		case token.GEQ:
+			op = token.LEQ
+		}
+	}
+	if !isLen(x) {
+		return false
+	}
+	switch {
+	case op == token.EQL && constIs(y, 0):
+		return pol
+	case op == token.NEQ && constIs(y, 0):
+		return !pol
+	case op == token.LSS && constIs(y, 1):
+		return pol
+	case op == token.LEQ && constIs(y, 0):
+		return pol
+	case op == token.GTR && constIs(y, 0):
+		return !pol
+	case op == token.GEQ && constIs(y, 1):
+		return !pol
+	}
+	return false
 }
